@@ -72,6 +72,7 @@ func Families(quick bool) []*Schema {
 	f5.Root(unionT("USPn", "stringprefix", map[string]string{"String": "s-", "SJ": "j-"}, "String", "SJ"))
 	f5.Root(structT("HasU", "map", fld("u", "UK", false, false), fld("k", "UKind", true, true)))
 	f5.Root(&Type{Name: "ListU", Kind: TList, ValType: "UKind"})
+	f5.Root(&Type{Name: "ListNUK", Kind: TList, ValType: "UK", ValNullable: true})
 	out = append(out, f5)
 
 	// F6: enums (reflection engine only)
@@ -80,6 +81,8 @@ func Families(quick bool) []*Schema {
 	f6.Root(&Type{Name: "EI", Kind: TEnum, ERepr: "int", EMembers: []string{"Zero", "One", "Minus"}, EInt: map[string]int{"Zero": 0, "One": 1, "Minus": -7}})
 	f6.Root(structT("HasE", "map", fld("e", "ES", true, false), fld("i", "EI", false, true)))
 	f6.Root(&Type{Name: "MapE", Kind: TMap, KeyType: "String", ValType: "EI"})
+	// an enum member with a representation string of its own inside a stringjoin struct
+	f6.Root(structT("SJE", "stringjoin", fld("e", "ES", false, false), fld("s", "String", false, false)))
 	out = append(out, f6)
 
 	// F7: maps and lists
@@ -94,6 +97,9 @@ func Families(quick bool) []*Schema {
 	f7.Root(&Type{Name: "ListL", Kind: TList, ValType: "ListI"})
 	f7.Root(&Type{Name: "MapL", Kind: TMap, KeyType: "String", ValType: "ListI"})
 	f7.Root(&Type{Name: "MapM", Kind: TMap, KeyType: "String", ValType: "MapSI", ValNullable: true})
+	// nullable values whose generated Maybe is pointer-backed (structs)
+	f7.Root(&Type{Name: "ListNPt", Kind: TList, ValType: "Pt", ValNullable: true})
+	f7.Root(&Type{Name: "MapSNPt", Kind: TMap, KeyType: "String", ValType: "Pt", ValNullable: true})
 	out = append(out, f7)
 
 	// F8: every scalar as a field, incl. Link/Bytes/Float/Bool
